@@ -12,6 +12,7 @@ import (
 	"sync"
 	"time"
 
+	"golang.org/x/tools/go/callgraph"
 	"golang.org/x/tools/go/packages"
 	"golang.org/x/tools/go/ssa"
 	"golang.org/x/tools/go/ssa/ssautil"
@@ -33,6 +34,9 @@ type Program struct {
 	loadSecs  float64
 	root      string
 	funcByKey map[string]*ssa.Function
+	vtaOnce   sync.Once
+	vta       *callgraph.Graph
+	vtaSecs   float64
 	cgOnce    sync.Once
 	gwCache   map[string]map[*ssa.Function]bool
 	cgEdges   map[*ssa.Function][]*ssa.Function
